@@ -116,6 +116,11 @@ for s_, T in (('i', 'int32_t'), ('u', 'uint32_t')):
         lambda i, sg=(s_ == 'i'): [i[0][0] > 0, i[0][0] <= (1 << 30)] if sg else [i[0][0] != 0, z3.ULE(i[0][0], 1 << 31)])
     add('imult_' + s_, [(T, 2)], [('bool', 1), (T, 2)], 'o[0] = glm::isMultiple(a[0], a[1]); o2[0] = glm::ceilMultiple(a[0], a[1]); o2[1] = glm::floorMultiple(a[0], a[1]);',
         lambda i, sg=(s_ == 'i'): ([i[0][1] > 0, i[0][1] < (1 << 20), i[0][0] > -(1 << 30), i[0][0] < (1 << 30)] if sg else [i[0][1] != 0, z3.ULT(i[0][1], 1 << 20), z3.ULT(i[0][0], 1 << 30)]))
+for s_, T in (('i64', 'int64_t'), ('u64', 'uint64_t'), ('i16', 'int16_t'), ('i8', 'int8_t')):      # width-dependent integer code paths (sign / abs bit tricks are selected per architecture macro)
+    sg = s_[0] == 'i'; W = int(s_[1:])
+    add('icommonw_' + s_, [(T, 3)], [(T, 5)], 'o[0] = glm::min(a[0], a[1]); o[1] = glm::max(a[0], a[1]); o[2] = glm::clamp(a[0], a[1], a[2]); o[3] = %s; o[4] = %s;' % (('glm::abs(a[0])', 'glm::sign(a[0])') if sg else ('glm::mix(a[0], a[1], true)', 'a[0] >> 1')),
+        (lambda i, W=W: [i[0][0] != (1 << (W - 1))]) if sg else None)
+    add('ivecw_' + s_, [(T, 3)], [(T, 3)] * 2, 'stv(o, %s); stv(o2, ldv<3,%s>(a) + ldv<3,%s>(a));' % (('glm::sign(ldv<3,%s>(a))' % T) if sg else ('glm::min(ldv<3,%s>(a), ldv<3,%s>(a) >> %s(1))' % (T, T, T)), T, T))
 add('carry_u', [('uint32_t', 2)], [('uint32_t', 4)], 'glm::uint c, m, l; o[0] = glm::uaddCarry(a[0], a[1], c); o[1] = c; glm::umulExtended(a[0], a[1], m, l); o[2] = m; o[3] = l;')
 add('interleave_u', [('uint32_t', 2)], [('uint64_t', 1), ('uint32_t', 2)], 'o[0] = glm::bitfieldInterleave(a[0], a[1]); o2[0] = glm::mask(a[0]); o2[1] = glm::bitfieldFillOne(a[0], 3, 7);')
 # packing
@@ -137,7 +142,7 @@ CFG = {
     'cxx98+xyzw_only': ['GLM_FORCE_CXX98', 'GLM_FORCE_XYZW_ONLY'], 'inline+ctor_init': ['GLM_FORCE_INLINE', 'GLM_FORCE_CTOR_INIT'], 'swizzle+size_t_length': ['GLM_FORCE_SWIZZLE', 'GLM_FORCE_SIZE_T_LENGTH'],
     'quat_wxyz+explicit_ctor': ['GLM_FORCE_QUAT_DATA_WXYZ', 'GLM_FORCE_EXPLICIT_CTOR'], 'cxx11+pure+inline': ['GLM_FORCE_CXX11', 'GLM_FORCE_PURE', 'GLM_FORCE_INLINE'],
 }
-QUICK_CFG = ['cxx98', 'cxx11', 'inline', 'ctor_init', 'xyzw_only', 'swizzle', 'quat_wxyz', 'aligned_pure', 'compiler_unknown', 'size_t_length']
+QUICK_CFG = ['cxx98', 'cxx11', 'inline', 'ctor_init', 'xyzw_only', 'swizzle', 'quat_wxyz', 'aligned_pure', 'compiler_unknown', 'size_t_length', 'arch_unknown', 'platform_unknown', 'explicit_ctor']
 OPTS_Q = ['-O2']; OPTS_T = ['-O0', '-O2', '-O3']
 UNITS = {k: B.clone('c15' + re.sub(r'\W', '_', k), defines=v) for k, v in CFG.items()}
 NATIVE = False        # native builds are made lazily, only when a counterexample has to be replayed
